@@ -35,11 +35,16 @@ type Program struct {
 	Sizes   types.Sizes
 
 	// all source functions (incl. anonymous) of module packages in U
-	Funcs []*ssa.Function
-	cg    *callgraph.Graph
-	roles *Roles
-	rp    map[*ssa.Function]bool
-	bp    map[*ssa.Function]bool
+	Funcs        []*ssa.Function
+	cg           *callgraph.Graph
+	roles        *Roles
+	prot         map[*ssa.Function]bool
+	views        map[*ssa.Function]*viewInfo
+	viewOf       map[*ssa.Function]*viewInfo
+	viewFailures []string
+	useViews     bool
+	rp           map[*ssa.Function]bool
+	bp           map[*ssa.Function]bool
 
 	LoadSeconds float64
 	NumFiles    int
@@ -214,6 +219,9 @@ func Load(repoDir string, bc BuildConfig, overlay map[string][]byte) (*Program, 
 	sort.Slice(p.Funcs, func(i, j int) bool { return p.Funcs[i].String() < p.Funcs[j].String() })
 	dbg("ssa build %.2fs", time.Since(t0).Seconds())
 	p.LoadSeconds = time.Since(t0).Seconds()
+	gProg = p
+	p.viewOf = map[*ssa.Function]*viewInfo{}
+	p.views = map[*ssa.Function]*viewInfo{}
 	return p, nil
 }
 
